@@ -252,6 +252,51 @@ CHECKS = {
         note="completion-order granularity; quiescence judged from /proc "
         "(misjudgement = harness error).",
         design="DESIGN.md section 3 C15, section 2 E5"),
+    "C01": dict(
+        engine="grid",
+        technique="exhaustive small-scope enumeration (format x compression "
+        "x attribute layout x value pattern x presentation x reader) with a "
+        "bit-exact executable oracle; all values of 8/16-bit dtypes",
+        text="All compressions of fb/npz/tfrec (quick: rotated, thorough: "
+        "full product) x layouts covering every (dtype, rank 0..4) pair in "
+        "first/middle/last position x 18 examples per dataset cycling "
+        "through special bit patterns (min/max/0/+-1, walking bits, +-inf, "
+        "q/sNaN payloads, subnormals, 64+ seeded random patterns) x 9 "
+        "presentations x readers sync/concurrent/async/Rust(rebuilt)/tf.data; "
+        "all 2^8/2^16 values of 8/16-bit dtypes; tfrec str/bytes incl. "
+        "NUL/unicode/4 KiB.",
+        note=">=32-bit dtypes: alphabet of bit patterns; rejected "
+        "presentations are counted, not violations.",
+        design="DESIGN.md section 3 C01"),
+    "C07": dict(
+        engine="gates+dataset_mc+dataset",
+        technique="fault x configuration x schedule enumeration: Rust "
+        "parallel_map with a panicking item under every completion order; "
+        "concurrent Python reader with a damaged shard under the "
+        "cooperative scheduler (exact deadlock detection, deviation "
+        "bounded); all interfaces on the OS schedule with a watchdog",
+        text="Formats fb (compressed and raw), npz, tfrec x damaged shard "
+        "first/middle/last x deleted/emptied/truncated/garbage x interface "
+        "x shuffle on/off x file_parallelism 1/2/>n; a pass must raise "
+        "whenever the format's own decoder rejects the file "
+        "(self-calibrated); never a deadlock, never a normal end with "
+        "fewer examples.",
+        note="async / tf.data only on the OS schedule (60 s watchdog).",
+        design="DESIGN.md section 3 C07"),
+    "C09": dict(
+        engine="procgates",
+        technique="exhaustive enumeration of all interleavings of the "
+        "writers' steps with real worker processes driven over pipes "
+        "(stateless exploration of process schedules at step granularity)",
+        text="7 writer lists (uneven loads, several splits per writer, idle "
+        "writers, single writer) x every distinct interleaving of steps "
+        "(write_example / context exit), 219 executions quick (fb + "
+        "samples of npz/tfrec), all formats thorough; compared with the "
+        "single_process=True run: canonical metadata tree, iteration "
+        "sequence, full recount, check(), return values in order, "
+        "write-opened paths of workers pairwise disjoint.",
+        note="step granularity; fork start method.",
+        design="DESIGN.md section 3 C09"),
 }
 
 NOT_YET = "check not built yet in this session (planned, see DESIGN.md section 3)"
@@ -333,6 +378,16 @@ def main() -> None:
                                "/repo/rust/src/parallel_map.rs by #[path]; "
                                "controller releases gated items one at a "
                                "time, Python drives the DFS"},
+            {"name": "procgates", "path": "vf/checks/c09.py",
+             "serves_properties": ["C09"],
+             "kind_free_text": "controller thread plays every interleaving "
+                               "of real writer processes over inherited "
+                               "pipes"},
+            {"name": "grid", "path": "vf/checks/c01.py c12.py c16.py c17.py "
+                                     "c20.py",
+             "serves_properties": ["C01", "C12", "C16", "C17", "C20"],
+             "kind_free_text": "small-scope input grids with executable "
+                               "oracles"},
             {"name": "sched", "path": "vf/sched.py + vf/lazypool_mc.py",
              "serves_properties": ["C13", "C14", "C02", "C07"],
              "kind_free_text": "cooperative scheduler + choice-sequence DFS "
